@@ -609,6 +609,9 @@ func TestVerifC11b(t *testing.T) {
 	var done atomic.Int64
 	phaseDone := make([]atomic.Int64, len(phases))
 	r.ParallelN(int64(len(jobs)), func(i int64) {
+		if r.Expired() { // ParallelN consults the deadline only every 64 items; batches are big
+			return
+		}
 		j := jobs[i]
 		ph := phases[j.ph]
 		atoms := alphas[ph.alpha]
